@@ -117,6 +117,8 @@ def run(ctx):
         variants = [{'newform': 'ctor'}]
         if not quick or b.kind in ('uni', 'vine'):
             variants += [{'newform': 'class'}, {'newform': 'name'}]
+        if len(b.cfgs) > 1 or b.kind == 'vine':
+            variants += [{'newform': 'mixed'}]       # objects built with positional and keyword arguments (prototypes of get_instance)
         for i, v in enumerate(variants):
             if b.kind == 'vine':
                 v = dict(v, poison_cycle=(0.0, 0.625, float('nan')))
